@@ -99,13 +99,18 @@ impl Parser for Constant {
 
 impl Parser for IntConstant {
     fn parse(input: &str) -> IResult<&str, IntConstant> {
+        // The sign is parsed together with the digits: the magnitude of i64::MIN does not
+        // fit an i64 on its own, and a recursive descent per '-' would let a run of minus
+        // signs exhaust the stack.
         alt((
-            preceded(tag("-"), map(IntConstant::parse, |d| IntConstant(-d.0))),
-            preceded(
-                tag("0x"),
-                map_res(hex_digit1, |d| i64::from_str_radix(d, 16).map(IntConstant)),
+            map_res(
+                tuple((opt(tag("-")), tag("0x"), hex_digit1)),
+                |(neg, _, d): (Option<&str>, &str, &str)| {
+                    let sign = if neg.is_some() { "-" } else { "" };
+                    i64::from_str_radix(&format!("{sign}{d}"), 16).map(IntConstant)
+                },
             ),
-            map_res(digit1, |d| {
+            map_res(recognize(tuple((opt(tag("-")), digit1))), |d: &str| {
                 let d = FromStr::from_str(d)?;
                 Ok::<_, ParseIntError>(IntConstant(d))
             }),
